@@ -24,6 +24,7 @@ func init() {
 		if c.Replay == "" {
 			c20EndToEnd(c)
 			c20Held(c)
+			c20DottedNames(c)
 		}
 	})
 }
@@ -94,6 +95,44 @@ func c20Held(c *core.Ctx) {
 			return
 		}
 		c.Cell("held:batches")
+	}
+}
+
+// c20DottedNames: database and table names may contain dots; two tables whose
+// "db.table" renderings coincide must still serialise with their own names,
+// in one transaction and across transactions.
+func c20DottedNames(c *core.Ctx) {
+	n := c.N(200, 5000)
+	for i := 0; i < n; i++ {
+		if !c.Mine(i) {
+			continue
+		}
+		r := c.Rng(core.StrID("c20dots"), uint64(i))
+		parts := []string{"shop", "eu", "orders", "a", "b.c", "x y", "ü", "t"}
+		a, b2, c3 := parts[r.Intn(len(parts))], parts[r.Intn(len(parts))], parts[r.Intn(len(parts))]
+		names := []gobinlog.MysqlTableName{{DbName: a + "." + b2, TableName: c3}, {DbName: a, TableName: b2 + "." + c3}, {DbName: a + "." + b2 + "." + c3, TableName: ""}, {DbName: "", TableName: a + "." + b2 + "." + c3}}
+		mk := func(ns ...gobinlog.MysqlTableName) *gobinlog.Transaction {
+			tx := &gobinlog.Transaction{NowPosition: gobinlog.Position{Filename: "f", Offset: 4}, NextPosition: gobinlog.Position{Filename: "f", Offset: 99}}
+			for _, nm := range ns {
+				tx.Events = append(tx.Events, &gobinlog.StreamEvent{Type: gobinlog.StatementInsert, Table: nm,
+					RowValues: []*gobinlog.RowData{{Columns: []*gobinlog.ColumnData{{Filed: "c", Type: 3, Data: []byte("1")}}}}})
+			}
+			return tx
+		}
+		perm := r.Perm(len(names))
+		txs := []*gobinlog.Transaction{mk(names[perm[0]], names[perm[1]]), mk(names[perm[2]]), mk(names[perm[3]], names[perm[0]])}
+		for ti, tx := range txs {
+			key, msg := "", ""
+			if p := core.Guard(func() { key, msg = CheckTxJSON(tx) }); p != "" {
+				key, msg = "txjson-panic", p
+			}
+			c.Case(core.HashU64(core.HashU64(0, uint64(i)), uint64(2100+ti)), true)
+			if key != "" {
+				c.Violation("dotted:"+key, fmt.Sprintf("table names with dots (case %d, transaction %d): %s", i, ti, msg), map[string]interface{}{"mode": "dotted-names", "index": i, "tx": TxWitness(tx)})
+				return
+			}
+		}
+		c.Cell("dotted-names")
 	}
 }
 
